@@ -235,6 +235,9 @@ func mintMonitor(w *world.World, authNames []string) chainsim.Monitor {
 			if invalidUnderRegisteredID {
 				cause = "invalid-signature-under-registered-authorizer-id-counted"
 			}
+			if len(p.Signatures) > len(reg) {
+				cause += ":list-longer-than-registered-authorizers"
+			}
 			v("C18:minted-without-quorum:"+cause, fmt.Sprintf("mint accepted with %d distinct registered authorizers validly signing (txn id, amount, nonce, receiver); threshold round(%.2f*%d)=%d; signature entries: %s", len(valid), gn.PercentAuthorizers, len(reg), threshold, shape))
 		} else if len(valid) < strict {
 			s.Tag(fmt.Sprintf("minted-with-%d-of-%d-below-ceil(%.2f*n)=%d", len(valid), len(reg), gn.PercentAuthorizers, strict))
@@ -407,12 +410,60 @@ func bridgeScenario(run *ev.Run, percent float64) *scenario {
 		extra = append(extra, mintCase{1000, 1, "c0", "c0", []sigEntry{V(a), {a, "idupper"}}})
 		extra = append(extra, mintCase{1000, 1, "c0", "c0", []sigEntry{{a, "miracl"}, {other, "upper"}}}) // honest quorum, respelled
 	}
+	// lists LONGER than the number of registered authorizers (the contract cuts the list off after numAuth
+	// entries): one authorizer's valid signature repeated, a forged signature under another authorizer's id,
+	// an unregistered id and another authorizer's valid signature in every placement before / after the cut-off
+	A, Bf, U, Bv := V("a0"), sigEntry{"a1", "forged"}, V("u"), V("a1")
+	E := []sigEntry{A, Bf, U, Bv}
+	var heads [][]sigEntry
+	if run.Thorough() {
+		for i := 0; i < 64; i++ { // every head of three entries that contains the repeated authorizer at least once
+			h := []sigEntry{E[i%4], E[i/4%4], E[i/16]}
+			if h[0] == A || h[1] == A || h[2] == A {
+				heads = append(heads, h)
+			}
+		}
+	} else {
+		heads = append(heads, []sigEntry{A, A, A})
+		for _, x := range []sigEntry{Bf, U, Bv} {
+			heads = append(heads, []sigEntry{A, A, x}, []sigEntry{A, x, A}, []sigEntry{x, A, A})
+		}
+	}
+	tails2 := [][]sigEntry{{Bf, Bf}, {Bf, U}, {U, Bv}, {Bv, Bf}, {A, Bf}, {U, U}}
+	if run.Thorough() {
+		tails2 = nil
+		for i := 0; i < 16; i++ {
+			tails2 = append(tails2, []sigEntry{E[i%4], E[i/4]})
+		}
+	}
+	for _, h := range heads {
+		for _, y := range E { // numAuth+1 entries
+			extra = append(extra, mintCase{1000, 1, "c0", "c0", append(append([]sigEntry{}, h...), y)})
+		}
+	}
+	for hi, h := range heads { // numAuth+2 entries
+		if !run.Thorough() && hi > 0 {
+			break
+		}
+		for _, t := range tails2 {
+			extra = append(extra, mintCase{1000, 1, "c0", "c0", append(append([]sigEntry{}, h...), t...)})
+		}
+	}
+	have := map[string]bool{}
+	for _, a := range sc.acts {
+		have[a.Name] = true
+	}
 	for _, mc := range extra {
-		sc.acts = append(sc.acts, mintAction(w, mc))
+		a := mintAction(w, mc)
+		if have[a.Name] {
+			continue
+		}
+		have[a.Name] = true
+		sc.acts = append(sc.acts, a)
 	}
 	sc.acts = append(sc.acts, rawMintActions(w)...)
 	sc.dq, sc.dt = 2, 4
-	sc.rule = "3 authorizers registered and staked through transactions (+1 unregistered key; second start state: registered but unstaked); BFS over mint payloads: every assignment of {absent, valid, forged-under-that-id} to the three authorizers with/without an entry of the unregistered key (53 sets), valid signatures over a different amount / nonce / receiver, duplicated entries in both orders, more entries than authorizers, submitter != receiver, nonce reuse with the same and with other content, amounts at min_mint and max_fee; oracle: minted => >= round(fraction*n) DISTINCT registered authorizers validly signed exactly (txn id, amount, nonce, receiver) (every signature re-verified by the monitor), submitter == receiver, nonce not minted before on this path, receiver gets amount - fee with 0 <= fee <= max_fee, bridge wallet pays exactly that, fee credited to authorizer stake pools; not minted => no tokens move"
+	sc.rule = "3 authorizers registered and staked through transactions (+1 unregistered key; second start state: registered but unstaked); BFS over mint payloads: every assignment of {absent, valid, forged-under-that-id} to the three authorizers with/without an entry of the unregistered key (53 sets), valid signatures over a different amount / nonce / receiver, duplicated entries in both orders, lists of numAuth+1 and numAuth+2 entries with {one authorizer's valid signature repeated, forged under another authorizer's id, unregistered id, another valid signature} in every placement before / after the contract's cut-off, submitter != receiver, nonce reuse with the same and with other content, amounts at min_mint and max_fee; oracle: minted => >= round(fraction*n) DISTINCT registered authorizers validly signed exactly (txn id, amount, nonce, receiver) (every signature re-verified by the monitor), submitter == receiver, nonce not minted before on this path, receiver gets amount - fee with 0 <= fee <= max_fee, bridge wallet pays exactly that, fee credited to authorizer stake pools; not minted => no tokens move"
 	return sc
 }
 
